@@ -67,7 +67,7 @@ func genCase(t *rapid.T) Case {
 	return c
 }
 
-var pathShape = map[string]bool{"overlappingPaths3": true, "placeholderRepeatedAdjacent": true, "placeholderRepeatedApart": true, "overlappingPaths": true, "placeholderWithoutParam": true, "pathParamNotInTemplate": true}
+var pathShape = map[string]bool{"pathParamNotRequired": true, "overlappingPaths3": true, "placeholderRepeatedAdjacent": true, "placeholderRepeatedApart": true, "overlappingPaths": true, "placeholderWithoutParam": true, "pathParamNotInTemplate": true}
 
 func class(format string) *regexp.Regexp {
 	q := regexp.QuoteMeta(format)
